@@ -13,7 +13,7 @@ func genC01(seed uint64, tier string) Scenario {
 	s := &ProtoScenario{Prop: "C01", Config: genConfig(g), Scripts: map[int]Script{}}
 	s.Service = genService(g, 1+g.IntN(3), g.Pick("unix:@c01", "tcp:127.0.0.1:4101", "unix:@c01;mode=0600"))
 	s.Shutdown = g.Pct(30)
-	nClients := 1 + g.IntN(4)
+	nClients := 1 + g.IntN(4*deeper(tier))
 	cid := 0
 	sizeClass := func() int {
 		switch {
@@ -27,7 +27,7 @@ func genC01(seed uint64, tier string) Scenario {
 	}
 	for c := 0; c < nClients; c++ {
 		var cs ClientSpec
-		nCalls := 1 + g.IntN(8)
+		nCalls := 1 + g.IntN(8*deeper(tier))
 		for i := 0; i < nCalls; i++ {
 			cid++
 			more, oneway, upgrade := g.Pct(35), g.Pct(25), g.Pct(10)
